@@ -8,7 +8,7 @@ LEVEL = "exploration"
 RULE = ("cross product noise mode x constraint family (incl. measure-zero hyperplane and thin band: every ES candidate infeasible / "
         "empty search set) x geometry (log x constraints) x budget (incl. N_init-1, N_init, tiny, 1, 2) x max_iter 1,2 x "
         "noise_final_samples 0,1 x repeated-point pressure under specified noise (tight boxes, coarse tol_mesh) x constant/plateau "
-        "targets x one-variable constrained problems with a coarse final mesh (local GP refitted on two training points) x many seeds; plus ONE documented option at a time moved off its default (every boolean flipped, positive numbers halved / doubled) on short problems in all four noise modes (quick: every boolean / explicit value in the deterministic and one noisy mode + every numeric variation in one mode; thorough: all x all modes; each variation once more on a NOISY problem under a measure-zero / thin-band constraint, where the rare paths - every ES candidate infeasible, empty search set - are taken). Refuting event: any exception escaping the constructor of a spec-valid problem or optimize() that was "
+        "targets x one-variable constrained problems with a coarse final mesh (local GP refitted on two training points) x many seeds; plus ONE documented option at a time moved off its default (every boolean flipped, positive numbers halved / doubled) on short problems in all four noise modes (quick: every boolean / explicit value in the deterministic and one noisy mode + every numeric variation in one mode; thorough: all x all modes; each variation once more on a NOISY problem under a measure-zero / thin-band constraint, where the rare paths - every ES candidate infeasible, empty search set - are taken; plus random PAIRS of variations: quick 60, thorough 900). Refuting event: any exception escaping the constructor of a spec-valid problem or optimize() that was "
         "not raised by the user's callables; classified by (type, innermost pybads file:function). Non-trivial/distinct = distinct "
         "(mode, constraint, geometry, landscape, rare-path flags) where rare-path flags are MEASURED at the seams (empty ES "
         "generation, empty search set, duplicate merge, second GP fit, local refit)")
@@ -114,7 +114,31 @@ def cases(tier, seed):
             # empty (what the library's own error message recommends)
             spec["options"].pop("uncertainty_handling", None)
         out.append({"spec": spec, "fam": fam})
-    out += option_variation_cases(tier, seed, hard=True)
+    ov = option_variation_cases(tier, seed, hard=True)
+    out += ov
+    # random PAIRS of those variations (two options off their defaults at once), on plain and on rare-path problems
+    singles = {}
+    for c in ov:
+        singles.setdefault(tuple(c["option"]), c["spec"]["options"][c["option"][0]])
+    keys = sorted(singles)
+    rs = np.random.RandomState(seed + 4711)
+    for t in range(60 if tier == "quick" else 900):
+        if len(keys) < 2:
+            break
+        a, b = rs.choice(len(keys), 2, replace=False)
+        ka, kb = keys[a], keys[b]
+        if ka[0] == kb[0]:
+            continue
+        rng = gen.rng_for(seed, "C09", 850000 + t)
+        mode = str(rng.choice(["det", "auto", "declared", "he"]))
+        pair = {ka[0]: singles[ka], kb[0]: singles[kb]}
+        if rng.random() < 0.3:
+            spec = gen.make_spec(rng, D=int(rng.choice([2, 3])), geom=str(rng.choice(["lin", "unb"])), x0mode="centre", land="quad", mode=(mode if mode != "det" else "auto"),
+                                 cons=str(rng.choice(["hyperplane", "band"])), options=pair, max_fun_evals=60)
+        else:
+            spec = gen.make_spec(rng, D=int(rng.choice([1, 2, 3])), geom=str(rng.choice(["lin", "log", "unb"])), x0mode="in", land=str(rng.choice(["quad", "l1", "rosen"])),
+                                 mode=mode, options=pair, max_fun_evals=60)
+        out.append({"spec": spec, "fam": "option-pairs", "option": [ka[0] + "+" + kb[0], "pair"]})
     # deterministic probes of the two OPEN known findings of this property, so that every run reports them
     for k, extra in enumerate(({"max_fun_evals": 1}, {"hedge_gamma": 0})):
         rng = gen.rng_for(seed, "C09", 900000 + k)
@@ -235,7 +259,7 @@ def summarize(records, tier, seed):
             nt.add((s["noise"]["mode"], s["cons"]["kind"], s["geom"], s["target"]["kind"], tuple(sorted(f & set(RARE)))))
     extra = {"status": C.status_hist(records), "rare_paths_reached_runs": rare,
              "rare_paths_never_reached": [k for k, v in rare.items() if v == 0],
-             "families": {k: sum(1 for r in records if r.get("fam") == k) for k in ("plain", "cons-hard", "dup-pressure", "budget-edge", "plateau", "iter-edge", "tiny-sd", "d1-cons", "option-variation")},
+             "families": {k: sum(1 for r in records if r.get("fam") == k) for k in ("plain", "cons-hard", "dup-pressure", "budget-edge", "plateau", "iter-edge", "tiny-sd", "d1-cons", "option-variation", "option-pairs")},
              "duplicate_merges_total": C.count_sum(records, "duplicate_merges"),
              "completed_runs": sum(1 for r in records if r.get("status") == "ok"),
              "exceptions_by_signature": C.other_property_aborts(records, "C09")}
